@@ -486,8 +486,6 @@ def build_cases(tier):
         for seq in itertools.product(GETS + TOGGLES, repeat=n):
             if seq[-1] not in GETS:
                 continue
-            if n == hl and not any(t in TOGGLES for t in seq) and len(set(seq)) == n and n > 2:
-                pass
             for win in ((80, 24, 0, 0),) + (() if quick or n == hl else ((80, 24, 800, 480),)):
                 add(dict(part="I", op="history", steps=list(seq), win=win, resp=hist_resp,
                          bound=0 if (n == hl or quick) else 1))
